@@ -66,6 +66,11 @@ func genFile(r *mrand.Rand, canonOnly bool) gen.FileSpec {
 		f.CID = gen.Pick(r, []string{"<cid-1@example.com>", "<image001>", "<a.b.c@verif>"})
 	}
 	f.Content = genContentFor(r, "file", true)
+	if r.Intn(5) == 0 {
+		// handed over under another name (another extension) and renamed: the leaf is declared by its final name
+		f.OrigName = gen.Pick(r, []string{"logo.gif", "page.html", "scan.jpeg", "data.csv", "notes.txt", "blob", "paper.pdf"})
+		f.RenameVia = gen.Pick(r, []string{"option", "field"})
+	}
 	if f.Source == "writer" && r.Intn(2) == 0 {
 		f.Chunk = gen.Pick(r, []int{1, 2, 3, 7, 57, 76, 100})
 	}
